@@ -41,6 +41,7 @@ EXPLANATION = (
   ' (FIN-wholeframes) as in C12: frame syntaxes are written from the whole number of complete frames, so no frame field reaches the frame rate;'
   ' (AGREE-framerate) ttp:frameRate is written for every time expression syntax under which to_time_format uses the frame rate;'
   + common.SHARED_CLAUSES['color'] + common.SHARED_CLAUSES['text']
+  + common.SHARED_CLAUSES['timing']
 )
 RULE_TEXT = "per element kind, per style property, per Enum member, per special-value access, per time syntax sample"
 UNDECIDED = ["snapshot equality after re-reading", "numeric precision of written lengths (:g formatting)", "font-family quoting round trip", "times move by less than one unit and never change order"]
@@ -790,7 +791,7 @@ def check_has_px(ctx):
 
 
 def run(ctx):
-  common.check_shared_helpers(ctx, color=True, text=True)
+  common.check_shared_helpers(ctx, color=True, text=True, timing=True)
   ix = ctx.ix
   check_writer_dispatch(ctx)
   check_props(ctx)
